@@ -19,6 +19,7 @@ PROPERTY = "C04"
 import unyt
 from unyt import dimensions as udims
 from unyt import unyt_array, unyt_quantity
+from unyt.unit_object import Unit
 from unyt.unit_registry import UnitRegistry
 
 EPS = 2.0**-52
@@ -657,6 +658,186 @@ def part_trig_offset(ctx, shard):
                         ctx.violation(f"C04|trig|op={fname}|form={form}|unit={n}|mode=wrong-value", case, np.asarray(want).tolist(), got.tolist())
 
 
+# ---- reductions over several axes -----------------------------------------------------------------------------------
+AXES = [None, 0, 1, -1, -2, (0,), (0, 1), (0, -1), (-1, -2), (1, -1), (-2, 0), ()]
+RED_UNITS = ["km", "hr", "km/hr", "dimensionless", "percent"]
+
+
+def part_axes(ctx, shard):
+    """product / quotient / sum reductions over one or several (possibly negative) axes: the exponent of the unit is the
+    number of elements that were actually multiplied together."""
+    world.reset_world()
+    for unit, shape in shard:
+        n = int(np.prod(shape))
+        data = (np.arange(n, dtype=float) % 5 + 1.0).reshape(shape) * 0.5
+        u = Unit(unit)
+        sc, dim = float(u.base_value), dim_of(u.dimensions)
+        calls = {
+            "multiply.reduce": (lambda x, ax, kd: np.multiply.reduce(x, axis=ax, keepdims=kd), np.multiply.reduce, +1),
+            "prod-method": (lambda x, ax, kd: x.prod(axis=ax, keepdims=kd), np.multiply.reduce, +1),
+            "np.prod": (lambda x, ax, kd: np.prod(x, axis=ax, keepdims=kd), np.multiply.reduce, +1),
+            "add.reduce": (lambda x, ax, kd: np.add.reduce(x, axis=ax, keepdims=kd), np.add.reduce, 0),
+            "sum-method": (lambda x, ax, kd: x.sum(axis=ax, keepdims=kd), np.add.reduce, 0),
+            "maximum.reduce": (lambda x, ax, kd: np.maximum.reduce(x, axis=ax, keepdims=kd), np.maximum.reduce, 0),
+            "divide.reduce": (lambda x, ax, kd: np.divide.reduce(x, axis=ax, keepdims=kd), np.divide.reduce, -1),
+        }
+        for ax, kd, (cname, (f, ref, kind)) in itertools.product(AXES, (False, True), calls.items()):
+            if isinstance(ax, tuple) and any(not -len(shape) <= a < len(shape) for a in ax):
+                continue
+            if isinstance(ax, int) and not -len(shape) <= ax < len(shape):
+                continue
+            if kind == -1 and (isinstance(ax, tuple) or ax is None):
+                continue  # NumPy: a non-reorderable reduction takes one axis
+            if ax is None and kind == +1 and cname == "multiply.reduce" and len(shape) > 1:
+                pass
+            ctx.count("evaluations")
+            ctx.count("transitions")
+            x = unyt_array(data.copy(), unit)
+            try:
+                want = ref(data * sc, axis=ax, keepdims=kd)
+            except Exception:  # noqa: BLE001
+                continue
+            r = run_real(lambda: f(x, ax, kd))
+            case = {"part": "axes", "unit": unit, "shape": list(shape), "axis": list(ax) if isinstance(ax, tuple) else ax, "keepdims": kd, "call": cname}
+            ctx.outcome(("axes", cname, str(ax), r[0]))
+            if r[0] != "ok":
+                ctx.count("refused")
+                continue
+            ctx.decided(("axes", cname, unit, shape, str(ax), kd))
+            res = r[1]
+            axs = tuple(range(len(shape))) if ax is None else ((ax,) if isinstance(ax, int) else ax)
+            k = int(np.prod([shape[a] for a in axs])) if axs else 1
+            wdim = dim**k if kind == +1 else dim if kind == 0 else dim ** (2 - k)
+            akey = "none" if ax is None else ("int" if isinstance(ax, int) else "tuple") + ("-neg" if (isinstance(ax, int) and ax < 0) or (isinstance(ax, tuple) and any(a < 0 for a in ax)) else "")
+            base = f"C04|axes|call={cname}|axis={akey}|keepdims={int(kd)}|ndim={len(shape)}"
+            ru = getattr(res, "units", None)
+            gdim = dim_of(ru.dimensions) if ru is not None else dim_of(1)
+            if gdim != wdim:
+                ctx.violation(base + "|mode=wrong-dimension", case, str(wdim), str(ru))
+                continue
+            got = np.asarray(getattr(res, "d", res), dtype=float) * (float(ru.base_value) if ru is not None else 1.0)
+            if got.shape != np.shape(want) or np.any(np.abs(got - want) > 64 * EPS * n * np.abs(want)):
+                ctx.violation(base + "|mode=wrong-value", case, np.asarray(want).tolist(), got.tolist())
+
+
+# ---- array-valued exponents ---------------------------------------------------------------------------------------------
+def part_array_power(ctx, shard):
+    """x ** e with an array e: a dimensional base accepts only a uniform exponent (every element gets the same unit);
+    whatever is returned is elementwise base**e with the unit raised to THE exponent."""
+    world.reset_world()
+    exps = {
+        "uniform-1d": np.array([2.0, 2.0, 2.0]),
+        "varying-1d": np.array([2.0, 3.0, 2.0]),
+        "uniform-2d": np.full((2, 3), 2.0),
+        "rows-equal-2d": np.array([[2.0, 3.0, 2.0], [2.0, 3.0, 2.0]]),
+        "cols-equal-2d": np.array([[2.0, 2.0, 2.0], [3.0, 3.0, 3.0]]),
+        "one-off-2d": np.array([[2.0, 2.0, 2.0], [2.0, 2.0, 3.0]]),
+        "uniform-3d": np.full((2, 1, 3), 3.0),
+        "planes-equal-3d": np.stack([np.array([[2.0, 3.0, 2.0]]), np.array([[2.0, 3.0, 2.0]])]),
+        "uniform-int-2d": np.full((2, 3), 2),
+        "rows-equal-int-2d": np.array([[1, 2, 1], [1, 2, 1]]),
+    }
+    for unit in shard:
+        u = Unit(unit)
+        sc, dim = float(u.base_value), dim_of(u.dimensions)
+        for ename, e in exps.items():
+            shape = e.shape
+            data = (np.arange(int(np.prod(shape)), dtype=float) % 4 + 1.5).reshape(shape)
+            forms = {
+                "operator": lambda x: x**e,
+                "np.power": lambda x: np.power(x, e),
+                "inplace": lambda x: (x.__ipow__(e), x)[1],
+                "out": lambda x: np.power(x, e, out=np.empty(shape)),
+                "broadcast-base": lambda x: x[..., :1] ** e if x.ndim > 1 else x[:1] ** e,
+                "scalar-base": lambda x: x.reshape(-1)[0] ** e,
+                "scalar-base-np.power": lambda x: np.power(x.reshape(-1)[1], e),
+            }
+            for form, f in forms.items():
+                ctx.count("evaluations")
+                ctx.count("transitions")
+                x = unyt_array(data.copy(), unit)
+                r = run_real(lambda: f(x))
+                uniform = bool(np.all(e == e.reshape(-1)[0]))
+                case = {"part": "array-power", "unit": unit, "exp": ename, "form": form}
+                ctx.outcome(("apow", ename, form, r[0], dim.dimensionless))
+                base = f"C04|array-power|exp={ename}|form={form}|base={'dimensionless' if dim.dimensionless else 'dimensional'}"
+                if r[0] != "ok":
+                    ctx.count("refused")
+                    continue
+                ctx.decided(("apow", unit, ename, form))
+                res = r[1]
+                if not uniform and not dim.dimensionless:
+                    ctx.violation(base + "|mode=mixed-powers-under-one-unit", case, "UnitOperationError", str(getattr(res, "units", None)))
+                    continue
+                p = float(e.reshape(-1)[0])
+                b = data[..., :1] if form == "broadcast-base" and data.ndim > 1 else data[:1] if form == "broadcast-base" else data
+                if form.startswith("scalar-base"):
+                    b = data.reshape(-1)[0 if form == "scalar-base" else 1]
+                want = (b * sc) ** e
+                ru = getattr(res, "units", None)
+                gdim = dim_of(ru.dimensions) if ru is not None else dim_of(1)
+                wdim = dim**p if uniform else dim_of(1)
+                if gdim != wdim:
+                    ctx.violation(base + "|mode=wrong-dimension", case, str(wdim), str(ru))
+                    continue
+                got = np.asarray(getattr(res, "d", res), dtype=float) * (float(ru.base_value) if ru is not None else 1.0)
+                if got.shape != want.shape or np.any(np.abs(got - want) > 256 * EPS * np.abs(want)):
+                    ctx.violation(base + "|mode=wrong-value", case, want.tolist(), got.tolist())
+
+
+# ---- operands of different widths ---------------------------------------------------------------------------------------
+WIDTH_DTYPES = ["float64", "float32", "float16", "int64", "int32", "int16"]
+
+
+def _feps(dt):
+    dt = np.dtype(dt)
+    return float(np.finfo("f%d" % max(dt.itemsize, 2)).eps)
+
+
+def part_widths(ctx, shard):
+    """operands of different item sizes in different commensurable units: each operand contributes rounding of ITS OWN
+    float width only - a wide operand is never squeezed through the width of a narrow partner."""
+    world.reset_world()
+    ops = {"add": np.add, "subtract": np.subtract, "maximum": np.maximum, "hypot": np.hypot, "fmax": np.fmax}
+    for (ul, ur), (dl, dr) in shard:
+        sl, sr = float(Unit(ul).base_value), float(Unit(ur).base_value)
+        for big in ("right", "left"):
+            # SI magnitudes: the big side ~7e4, the small side ~3 (stored numbers stay inside float16 / int16)
+            Lsi, Rsi = (np.array([1.0, 2.0, 3.0]), np.array([12345.0, 54321.0, 40000.0])) if big == "right" else (np.array([12345.0, 54321.0, 40000.0]), np.array([1.0, 2.0, 3.0]))
+            ld, rdat = (Lsi / sl), (Rsi / sr)
+            if np.dtype(dl).kind == "i":
+                ld = np.rint(ld)
+            if np.dtype(dr).kind == "i":
+                rdat = np.rint(rdat)
+            with np.errstate(all="ignore"):
+                ld, rdat = ld.astype(dl), rdat.astype(dr)
+            if not (np.all(np.isfinite(ld.astype(float))) and np.all(np.isfinite(rdat.astype(float)))) or np.any(ld == 0) or np.any(rdat == 0):
+                ctx.count("filtered_unrepresentable_operand")
+                continue
+            Ls, Rs = ld.astype(float) * sl, rdat.astype(float) * sr  # what the operands really hold
+            for oname, uf in ops.items():
+                for form in ("operator" if oname in ("add", "subtract") else "ufunc", "ufunc"):
+                    ctx.count("evaluations")
+                    ctx.count("transitions")
+                    x, y = unyt_array(ld.copy(), ul), unyt_array(rdat.copy(), ur)
+                    if form == "operator":
+                        r = run_real(lambda: x + y if oname == "add" else x - y)
+                    else:
+                        r = run_real(lambda: uf(x, y))
+                    case = {"part": "widths", "units": [ul, ur], "dtypes": [dl, dr], "big": big, "op": oname, "form": form}
+                    ctx.outcome(("widths", oname, dl, dr, r[0]))
+                    if r[0] != "ok":
+                        ctx.count("refused")
+                        continue
+                    ctx.decided(("widths", ul, ur, dl, dr, big, oname, form))
+                    res = r[1]
+                    want = uf(Ls, Rs)
+                    got = np.asarray(res.d, dtype=float) * float(res.units.base_value)
+                    tol = 64 * (_feps(dl) * np.abs(Ls) + _feps(dr) * np.abs(Rs)) + 64 * EPS * np.abs(want)
+                    if got.shape != want.shape or not np.all(np.abs(got - want) <= tol):
+                        ctx.violation(f"C04|widths|op={oname}|left={dl}|right={dr}|big={big}|mode=wide-operand-lost-precision", case, want.tolist(), got.tolist())
+
+
 PROGS = {}
 
 
@@ -691,6 +872,10 @@ def run(ctx):
     extra_pairs = list(itertools.product(EXTRA_LEAVES, EXTRA_LEAVES))
     harness.pmap(ctx, part_extra, [extra_pairs[i::32] for i in range(32)])
     harness.pmap(ctx, part_namesake, [["stale-after-modify"], ["two-registries"]])
+    harness.pmap(ctx, part_axes, [[(u, sh)] for u in RED_UNITS for sh in ((2, 3), (2, 3, 4), (3,), (1, 3))])
+    harness.pmap(ctx, part_array_power, [[u] for u in ("km", "hr/s", "dimensionless", "percent", "m/s")])
+    wpairs = [(a, b) for a in WIDTH_DTYPES for b in WIDTH_DTYPES if np.dtype(a).itemsize != np.dtype(b).itemsize]
+    harness.pmap(ctx, part_widths, [[(up, dp)] for up in (("km", "m"), ("m", "km"), ("hr", "s"), ("m", "cm")) for dp in wpairs])
     return {
         "coverage": {
             "rule": "all expression programs of depth <= 2 over the operation alphabet x every assignment of leaf units "
@@ -713,6 +898,15 @@ def replay(case):
     world.reset_world()
     if case.get("part") == "trig":
         part_trig_offset(ctx, [case["unit"]])
+        return list(ctx.violations.items())
+    if case.get("part") == "axes":
+        part_axes(ctx, [(case["unit"], tuple(case["shape"]))])
+        return list(ctx.violations.items())
+    if case.get("part") == "array-power":
+        part_array_power(ctx, [case["unit"]])
+        return list(ctx.violations.items())
+    if case.get("part") == "widths":
+        part_widths(ctx, [(tuple(case["units"]), tuple(case["dtypes"]))])
         return list(ctx.violations.items())
     if case.get("part") == "offset":
         grp = [g for g in OFFSET_GROUPS if case["left"] in g][0]
